@@ -6,8 +6,10 @@
 //	          runtime registry, the injected config database (thorough: also badger)
 //	flags     none, secret, crown jewel, both
 //	marking   how the privileged side marks the record: a Put of a flagged record, a Put
-//	          through an interface with AlwaysMakeSecret/AlwaysMakeCrownjewel, or a plain Put
-//	          followed by MakeSecret/MakeCrownJewel (+ an update of the content)
+//	          through an interface with AlwaysMakeSecret/AlwaysMakeCrownjewel, a plain Put
+//	          followed by MakeSecret/MakeCrownJewel (+ an update of the content), a PutNew of
+//	          a record flagged on its own metadata, or a PutNew of a copy (duplicate metadata)
+//	          of a flagged record stored under another key
 //	reader    Options.Local x Options.Internal (4)
 //	cache     none, cold, warm through a Get of the reader before the marking, warm through
 //	          a Put of the reader before the marking
@@ -158,15 +160,24 @@ func pathFamily(p string) string {
 
 type flagMarking struct{ flags, marking string }
 
-var flagMarkings = func() []flagMarking {
+func mkFlagMarkings(markings ...string) []flagMarking {
 	out := []flagMarking{{"none", "plain"}}
 	for _, f := range []string{"secret", "crown", "both"} {
-		for _, m := range []string{"flagged-put", "always-opts", "reflag"} {
+		for _, m := range markings {
 			out = append(out, flagMarking{f, m})
 		}
 	}
 	return out
-}()
+}
+
+// flagMarkings: every way of marking. flagged-putnew: the flags are set on the record's own
+// metadata and its first save is a PutNew of the privileged writer; copy-putnew: a flagged
+// record stored under another key is copied (with a duplicate of its metadata) to the key
+// and saved with PutNew (the "save as" pattern).
+var flagMarkings = mkFlagMarkings("flagged-put", "always-opts", "reflag", "flagged-putnew", "copy-putnew")
+
+// baseFlagMarkings is the reduced list the quick tier uses for the two-access histories.
+var baseFlagMarkings = mkFlagMarkings("flagged-put", "always-opts", "reflag")
 
 var privs = [][2]bool{{true, true}, {true, false}, {false, true}, {false, false}} // (Local, Internal), control first
 
@@ -251,6 +262,12 @@ func setup(c *vlib.Ctx, withBadger bool) error {
 		}
 	}
 	tmpRoot = dir
+	// fstree stages every write through a probe file in os.TempDir() (renameio) and falls
+	// back to the record's own directory if that fails. Sixteen workers creating files in one
+	// shared temp directory spend most of their time waiting for that directory in the
+	// kernel; with a TMPDIR that does not exist every write is staged in the cell's own
+	// directory (renameio's documented fallback).
+	_ = os.Setenv("TMPDIR", dir+"/no-such-dir")
 	if err := database.InitializeWithPath(dir); err != nil {
 		return err
 	}
@@ -599,6 +616,9 @@ func runCell(cell Cell, idx int64) (res result) {
 	}
 	tKey, nKey := dir+"t", dir+"n"
 	fullT, fullN := b.db+":"+tKey, b.db+":"+nKey
+	// copy-putnew: the flagged record that is copied lives in a directory of its own
+	sKey := fmt.Sprintf("r/s%d/s", idx)
+	fullS := b.db + ":" + sKey
 	// the reader's spelling of the marked record's key and of the directory prefix
 	accKey, accDir := spell(cell.Alias, dir)
 	accT := b.db + ":" + accKey
@@ -626,7 +646,10 @@ func runCell(cell Cell, idx int64) (res result) {
 
 	if b.kind == "config" {
 		cfgRegLock.Lock()
-		for _, k := range []string{tKey, nKey} {
+		for _, k := range []string{tKey, nKey, sKey} {
+			if k == sKey && cell.Marking != "copy-putnew" {
+				continue
+			}
 			if _, err := config.GetOption(k); err != nil {
 				if err := config.Register(&config.Option{Name: k, Key: k, Description: "C03", OptType: config.OptTypeString, DefaultValue: "d"}); err != nil {
 					cfgRegLock.Unlock()
@@ -641,6 +664,9 @@ func runCell(cell Cell, idx int64) (res result) {
 		if st, err := database.VerifStorage(b.db); err == nil {
 			_ = st.Delete(tKey)
 			_ = st.Delete(nKey)
+			if cell.Marking == "copy-putnew" {
+				_ = st.Delete(sKey)
+			}
 			if accKey != tKey {
 				_, _ = vlib.Catch(func() { _ = st.Delete(accKey) })
 			}
@@ -649,10 +675,12 @@ func runCell(cell Cell, idx int64) (res result) {
 			b.prov.remove(tKey)
 			b.prov.remove(nKey)
 			b.prov.remove(accKey)
+			b.prov.remove(sKey)
 		}
 		if b.kind == "config" {
 			config.VerifUnregister(tKey)
 			config.VerifUnregister(nKey)
+			config.VerifUnregister(sKey)
 		}
 	}()
 
@@ -727,6 +755,43 @@ func runCell(cell Cell, idx int64) (res result) {
 				r.Meta().MakeCrownJewel()
 			}
 			return W.Put(r)
+		}, cell.secret(), cell.crown()})
+	case "flagged-putnew":
+		steps = append(steps, mstep{"W.PutNew(t=v2 flagged " + cell.Flags + ")", func() error {
+			r := newRec(cell.Rec, fullT, "v2")
+			r.CreateMeta()
+			if cell.secret() {
+				r.Meta().MakeSecret()
+			}
+			if cell.crown() {
+				r.Meta().MakeCrownJewel()
+			}
+			return W.PutNew(r)
+		}, cell.secret(), cell.crown()})
+	case "copy-putnew":
+		steps = append(steps, mstep{"W.Put(s=v2 flagged " + cell.Flags + "); W.Get(s); W.PutNew(copy of s as t)", func() error {
+			src := newRec(cell.Rec, fullS, "v2")
+			src.UpdateMeta()
+			if cell.secret() {
+				src.Meta().MakeSecret()
+			}
+			if cell.crown() {
+				src.Meta().MakeCrownJewel()
+			}
+			if err := W.Put(src); err != nil {
+				return err
+			}
+			res.calls += 2
+			got, err := W.Get(fullS)
+			if err != nil {
+				return err
+			}
+			got.Lock()
+			meta := got.Meta().Duplicate()
+			got.Unlock()
+			cp := newRec(cell.Rec, fullT, "v2")
+			cp.SetMeta(meta)
+			return W.PutNew(cp)
 		}, cell.secret(), cell.crown()})
 	case "always-opts":
 		steps = append(steps, mstep{"WO.Put(t=v2) [Always* " + cell.Flags + "]", func() error { return WO.Put(newRec(cell.Rec, fullT, "v2")) }, cell.secret(), cell.crown()})
@@ -1249,12 +1314,17 @@ type group struct {
 	alias   string
 	pre     string
 	path    string
+	fms     []flagMarking // nil: all
 }
 
 func (g group) cells() []Cell {
 	var out []Cell
 	api := strings.HasPrefix(g.path, "api:")
-	for _, fm := range flagMarkings {
+	fms := g.fms
+	if fms == nil {
+		fms = flagMarkings
+	}
+	for _, fm := range fms {
 		for _, p := range privs {
 			if api && (p[0] || p[1]) {
 				continue // the API always acts as neither local nor internal
@@ -1304,7 +1374,8 @@ func main() {
 			return
 		}
 
-		c.SetBudget(vlib.Pick(c, 170*time.Second, 25*time.Minute))
+		// wall-clock budget: vlib's default (8 min quick, 40 min thorough) or --budget; a run
+		// that is cut off is reported as not exhaustive
 		c.Rule("a cell is non-trivial if the reader lacks a privilege the record's marks require (the oracle applies) and the same access path succeeds in the same group for the unmarked record with a fully privileged reader (API paths: for the unmarked record)")
 		c.Assume("Options.DelayCachedWrites is not combined with a non-privileged interface (documented restriction), so delayed cached writes are not enumerated")
 		c.Assume("a reader whose own cache was filled before the record was marked may be served that outdated, unmarked copy again (documented for Options.CacheSize); such a copy holds nothing that was written while the record was marked and is not counted as disclosure")
@@ -1323,7 +1394,10 @@ func main() {
 		readerOpts := []string{""}
 		seqCaches := []string{"none", "warm-get"}
 		seqRecs, seqDepths := []string{"wrapper"}, []int{1}
+		seqFMs := baseFlagMarkings // quick: the two PutNew markings only with single accesses
+		seqBks := bks
 		if thorough {
+			seqFMs = nil
 			readerOpts = []string{"", "always-secret", "always-crown", "always-expiry"}
 			seqCaches = caches
 			seqRecs, seqDepths = recs, depths
@@ -1356,6 +1430,7 @@ func main() {
 		// resolves every spelling to the record's file: all six there; on the other backends a
 		// spelling is another key: one control column.
 		aliasRecs, aliasDepths := []string{"wrapper"}, []int{1}
+		aliasCaches := caches
 		if thorough {
 			aliasRecs, aliasDepths = recs, depths
 		}
@@ -1366,7 +1441,7 @@ func main() {
 						continue
 					}
 					isAPI := strings.HasPrefix(path, "api:")
-					for _, cache := range caches {
+					for _, cache := range aliasCaches {
 						if isAPI && cache != "none" {
 							continue
 						}
@@ -1393,8 +1468,8 @@ func main() {
 					}
 					for _, path := range ifacePaths {
 						for _, cache := range seqCaches {
-							for _, b := range bks {
-								groups = append(groups, group{backend: b, rec: rec, depth: depth, cache: cache, pre: pre, path: path})
+							for _, b := range seqBks {
+								groups = append(groups, group{backend: b, rec: rec, depth: depth, cache: cache, pre: pre, path: path, fms: seqFMs})
 							}
 						}
 					}
@@ -1404,8 +1479,8 @@ func main() {
 						continue
 					}
 					for _, path := range apiPaths {
-						for _, b := range bks {
-							groups = append(groups, group{backend: b, rec: rec, depth: depth, cache: "none", pre: pre, path: path})
+						for _, b := range seqBks {
+							groups = append(groups, group{backend: b, rec: rec, depth: depth, cache: "none", pre: pre, path: path, fms: seqFMs})
 						}
 					}
 				}
@@ -1573,7 +1648,7 @@ func main() {
 			}
 			return s
 		}())
-		c.Extra("bounds", map[string]any{"flags_x_marking": len(flagMarkings), "reader_privileges": 4, "cache_settings": 4,
+		c.Extra("bounds", map[string]any{"flags_x_marking": len(flagMarkings), "flags_x_marking_for_two_accesses_quick": len(baseFlagMarkings), "reader_privileges": 4, "cache_settings": 4,
 			"interface_paths": len(ifacePaths), "api_paths": len(apiPaths), "record_types": recs, "key_depths": depths,
 			"reader_option_variants": readerOpts, "groups_single_access": nSingle, "groups_single_access_with_alias_key": nAlias, "alias_spellings": aliasKinds, "groups_two_accesses": len(groups) - nSingle, "caches_for_two_accesses": seqCaches, "record_types_for_two_accesses": seqRecs, "key_depths_for_two_accesses": seqDepths, "history_depth": "<= 3 privileged writes, <= 1 reader pre-access, 1 access, <= 3 privileged writes while a feed is open"})
 	})
